@@ -43,7 +43,8 @@ let handle (x : Sexp.t) : string =
                  incr n_tie;
                  let simp = r.r_simp = "simplified" in
                  let the_sys = if simp then (match simp_sy with Some s -> s | None -> sy) else sy in
-                 (match witness_tie ~exact_bad_names:(not simp) the_sys nm wx qs with
+                 (* a run in a child process rebuilds the system: its internal signal names are its own *)
+                 (match witness_tie ~exact_bad_names:(not simp && r.r_session <> "child") the_sys nm wx qs with
                   | Some d -> if !diff = None then diff := Some (Printf.sprintf "%s: %s" (run_tag r) d)
                   | None -> ())
              | None -> ());
